@@ -96,7 +96,10 @@ func (f *rawFileWriter) Close() error {
 		return err
 	}
 
-	f.w.Flush()
+	if err := f.w.Flush(); err != nil {
+		f.fd.Close()
+		return err
+	}
 	return f.fd.Close()
 }
 
